@@ -1804,7 +1804,7 @@ fn stream<X: Rt + Nullable>(cx: &mut Cx, sharded: bool, count: u64, mut mk: impl
             _ => cx.report(n, &name, r, &|| x.show()),
         }
         cx.nontrivial(mix(nh, x.fp()));
-        if done == 0 && cx.ctx.shard == 0 && cx.rep.samples.len() < cx.rep.max_samples {
+        if done == 1 && !sharded && cx.ctx.shard == 0 && cx.rep.samples.len() < cx.rep.max_samples {
             cx.rep.sample(json!({"kind": "round-trip", "type": name, "value": x.show(), "case": n}));
         }
         done += 1;
@@ -2068,6 +2068,7 @@ fn matrix(cx: &mut Cx) {
     };
     let (ns, nt) = (srcs.len() as u64, tgts.len() as u64);
     let (mut cells, mut must_fail, mut must_ok) = (0u64, 0u64, 0u64);
+    let mut sampled = [false; 2];
     for i in cx.sharded(base, ns * nt) {
         let s = &srcs[(i / nt) as usize];
         let t = &tgts[(i % nt) as usize];
@@ -2134,8 +2135,10 @@ fn matrix(cx: &mut Cx) {
         if want_ok && !s.null {
             cx.nontrivial(mix(hash_str(&cell), hash_bytes(&s.enc)));
         }
-        if i == 7 * nt + 3 {
-            cx.rep.sample(json!({"kind": "matrix cell", "source": show_value(&s.v), "target": t.label,
+        let interesting = if want_ok { !s.null && s.label != t.label && !t.opt } else { compatible || s.variant == "Uuid" };
+        if ctx.shard == 0 && interesting && !sampled[want_ok as usize] {
+            sampled[want_ok as usize] = true;
+            cx.rep.sample(json!({"kind": "matrix cell", "source_type": s.label, "source": show_value(&s.v), "target": t.label,
                 "expected": if want_ok {"Ok"} else {"Err"}, "try_from_ok": ok_flag}));
         }
     }
